@@ -3,7 +3,7 @@
 usage: benign_regress.py [-j N]   (scratch worktrees of /repo under /tmp, removed afterwards)"""
 import sys,os,json,subprocess,concurrent.futures as cf
 ENV=dict(os.environ,GOFLAGS='-mod=mod',GOPROXY='off',GOSUMDB='off',GOTOOLCHAIN='local')
-CHECKS={'B1':'C01 C02 C03 C04 C06 C07 C08 C09 C14 C15 C17 C19','B2':'C01 C04 C05 C06 C08 C09 C12 C14 C17','B3':'C01 C08 C09 C13 C17','B4':'C02 C08 C10 C11 C15 C16','B5':'C18','B6':'C11 C20','B7':'C01 C02 C03 C04 C06 C07 C08 C09 C10 C14 C15 C16 C17 C19','B8':'C01 C04 C05 C06 C07 C08 C09 C12 C14 C17','B9':'C02 C08 C10 C11 C15 C16','B10':'C01 C03 C05 C06 C07 C09 C14 C17','B11':'C01 C07 C08 C09 C12 C13 C17','B12':'C18'}
+CHECKS={'B1':'C01 C02 C03 C04 C06 C07 C08 C09 C14 C15 C17 C19','B2':'C01 C04 C05 C06 C08 C09 C12 C14 C17','B3':'C01 C08 C09 C13 C17','B4':'C02 C08 C10 C11 C15 C16','B5':'C18','B6':'C11 C20','B7':'C01 C02 C03 C04 C06 C07 C08 C09 C10 C14 C15 C16 C17 C19','B8':'C01 C04 C05 C06 C07 C08 C09 C12 C14 C17','B9':'C02 C08 C10 C11 C15 C16','B10':'C01 C03 C05 C06 C07 C09 C14 C17','B11':'C01 C07 C08 C09 C12 C13 C17','B12':'C18','B13':'C01 C04 C05 C06 C08 C09 C12 C14 C17','B14':'C01 C02 C03 C04 C06 C07 C09 C14 C15 C17 C19','B15':'C18','B16':'C01 C06 C08 C09 C13 C17','B17':'C02 C08 C10 C11 C15 C16'}
 j=2
 if '-j' in sys.argv: j=int(sys.argv[sys.argv.index('-j')+1])
 def sh(c): return subprocess.run(c,shell=True,capture_output=True,text=True,env=ENV)
